@@ -32,7 +32,7 @@ def exhaustive(tier):
 def required(tier):
     return {"exact_pairs": 5000, "type_checks": 5000, "law_checks": 1000,
             "prefix_products": 2000, "cache_entries_audited": 500, "gen_units": 200,
-            "primed_conversions": 1500, "array_conversions": 1000}
+            "primed_conversions": 1500, "array_conversions": 1000, "two_registry_conversions": 500}
 
 
 def shards(tier, seed):
@@ -54,6 +54,7 @@ def shards(tier, seed):
     for nit in ("fraction", "float", "decimal"):
         out.append({"kind": "primed", "nit": nit, "name": f"primed-{nit}"})
     # ndarray magnitudes (float and INTEGER dtype) through every conversion entry point, in place and not
+    out.append({"kind": "tworeg", "name": "tworeg", "n": 12 if tier == "quick" else 150})
     out.append({"kind": "arrays", "nit": "float", "name": "arrays", "n": 1500 if tier == "quick" else 20000})
     return out
 
@@ -121,6 +122,8 @@ def run_shard(spec, rec):
     rng = random.Random(spec["seed"])
     if spec["kind"] == "generated":
         return run_generated(spec, rec, rng, pint)
+    if spec["kind"] == "tworeg":
+        return run_tworeg(spec, rec, rng, pint)
     nitname = spec["nit"]
     nit = NIT[nitname]
     m = R.default_model(pintload.REPO)
@@ -428,3 +431,53 @@ def run_generated(spec, rec, rng, pint):
                     cmp(got, want, True, {"text": txt, "src": sa, "dst": sb}, "generated-factor")
         if i == 0:
             rec.sample({"generated_file": txt[:500]})
+
+
+
+def run_tworeg(spec, rec, rng, pint):
+    """Several registries alive in ONE process whose definition texts give the SAME prefix and unit names
+    different values (kilo- = 1000 in one, 1024 in the next): every registry converts by its own text, whoever
+    resolved the spelling first."""
+    pnames = [("kilo", "k"), ("milli", "m"), ("mega", "M"), ("micro", "u"), ("centi", "c"), ("hecto", "h")]
+    for i in range(spec["n"]):
+        nitname = ("fraction", "decimal", "float")[i % 3]
+        nit = NIT[nitname]
+        cmp = Cmp(rec, nitname)
+        regs = []
+        for r in range(3):
+            pv = {}
+            for k, (pn, ps) in enumerate(pnames):
+                if r == 0:
+                    pv[pn] = F(10) ** (3, -3, 6, -6, -2, 2)[k]
+                else:
+                    pv[pn] = F(rng.randint(2, 4096), rng.choice((1, 1, 2, 5, 8)))
+            yard = F(rng.randint(2, 50), rng.choice((1, 4, 10))) if r else F(9144, 10000)
+            lines = [f"{pn}- = {v.numerator} / {v.denominator} = {ps}-" for (pn, ps), v in zip(pnames, pv.values())]
+            lines += ["meter = [length] = m", "second = [time] = s", "gram = [mass] = g",
+                      f"yard = {yard.numerator} / {yard.denominator} * meter = yd"]
+            try:
+                regs.append((pint.UnitRegistry(lines, non_int_type=nit, cache_folder=None), pv, yard, lines))
+            except Exception as e:  # noqa: BLE001
+                rec.violation("generated-file-refused", {"text": "\n".join(lines), "err": repr(e)}, nit=nitname)
+        asks = [(pn, ps, u, us) for pn, ps in pnames for u, us in (("meter", "m"), ("second", "s"), ("yard", "yd"))]
+        rng.shuffle(asks)
+        for j, (pn, ps, u, us) in enumerate(asks):
+            order = list(range(len(regs)))
+            rng.shuffle(order)             # which registry meets the spelling first varies
+            for ri in order:
+                ureg, pv, yard, lines = regs[ri]
+                base = yard if u == "yard" else F(1)
+                for src, dst, want in ((pn + u, "meter" if u == "yard" else u, pv[pn] * base),
+                                       (u, ps + us, 1 / pv[pn]),
+                                       (f"{ps}{us} ** 2", f"{u} ** 2", pv[pn] ** 2)):
+                    rec.count("two_registry_conversions")
+                    rec.case(("tworeg", i, ri, src, dst), nontrivial=True)
+                    try:
+                        got = ureg.convert(nit(1), src, dst)
+                    except Exception as e:  # noqa: BLE001
+                        rec.violation("raised", {"text": "\n".join(lines), "src": src, "dst": dst, "err": repr(e)}, nit=nitname)
+                        continue
+                    cmp(got, want, True, {"text": "\n".join(lines), "src": src, "dst": dst, "registry_index": ri,
+                                          "asked_order": order}, "factor-in-one-of-several-registries")
+        if i == 0:
+            rec.sample({"tworeg_text": regs[0][3][:4] + regs[1][3][:4]})
